@@ -54,7 +54,7 @@ func checkC15(c *Ctx, r *Report) {
 		eff := NewEffects(p, map[string]map[int]bool{})
 		eff.Run()
 		freshResultObligations(r, p, eff)
-		r.Floor("fresh_result_obligations", 30)
+		r.Floor("fresh_result_obligations", 15)
 	}
 
 
